@@ -189,6 +189,8 @@ def genotype(
     assert profile, "Profile not set"
     if kind == "dump":
         profile.update(params)
+        if cn_solution:  # a structure supplied for this run wins over the archive's
+            profile.cn_solution = cn_solution
 
     json[gene.name].update({"sample": sample.name})
     is_vcf = output_file and output_file.name.endswith(".vcf")
